@@ -318,7 +318,10 @@ func genC08(t *rapid.T) *Scenario {
 			// a receive and a send without an intervening quiescence: the pump wakes up with several arms ready
 			k := rapid.IntRange(2, 4).Draw(t, "nsub")
 			for i := 0; i < k; i++ {
-				sub := Move{K: rapid.SampledFrom([]string{"recv", "recv", "send", "burst"}).Draw(t, "sk")}
+				sub := Move{K: rapid.SampledFrom([]string{"recv", "recv", "send", "burst", "par"}).Draw(t, "sk")}
+				if sub.K == "par" {
+					sub.M = rapid.IntRange(1, 4).Draw(t, "sm")
+				}
 				if sub.K == "burst" {
 					sub.M = rapid.IntRange(1, 4).Draw(t, "sm")
 				}
@@ -327,8 +330,12 @@ func genC08(t *rapid.T) *Scenario {
 		}
 		sc.Script = append(sc.Script, m)
 	}
+	sc.Gated = rapid.IntRange(0, 3).Draw(t, "warm") == 0 // a pipe of another element type ran before (shared state between instantiations)
 	// how the stream ends: by class
-	switch rapid.SampledFrom([]string{"harness", "harness", "cancel-with-backlog", "racing-sends", "close-with-backlog"}).Draw(t, "endclass") {
+	switch rapid.SampledFrom([]string{"harness", "harness", "cancel-with-backlog", "racing-sends", "racing-sends", "parked-senders", "parked-senders", "close-with-backlog"}).Draw(t, "endclass") {
+	case "parked-senders":
+		// several independent senders race the cancel: the send buffer is full and more senders are parked on it
+		sc.Script = append(sc.Script, Move{K: "batch", Sub: []Move{{K: "burst", M: rapid.IntRange(0, 3).Draw(t, "chain")}, {K: "par", M: rapid.IntRange(2, 8).Draw(t, "parked")}, {K: "cancel"}}})
 	case "cancel-with-backlog":
 		sc.Script = append(sc.Script, Move{K: "burst", M: rapid.IntRange(1, 6).Draw(t, "backlog")}, Move{K: "cancel"})
 	case "racing-sends":
@@ -480,7 +487,21 @@ func genC09(t *rapid.T) *Scenario {
 	}
 	genPrefill(t, sc)
 	np := nPortsOf(sc.Stage[5:], sc.Mode, sc.StdErr)
-	switch rapid.SampledFrom([]string{"random", "random", "no-cancel", "hold-one", "cancel-inflight"}).Draw(t, "class") {
+	switch rapid.SampledFrom([]string{"random", "random", "no-cancel", "hold-one", "cancel-inflight", "simultaneous-release"}).Draw(t, "class") {
+	case "simultaneous-release":
+		// all workers busy, the output buffer one short of full, then every in-flight call returns at once; nobody receives
+		sc.Script = []Move{{K: "burst", M: 16}}
+		for k := 0; k < rapid.IntRange(0, sc.Par).Draw(t, "prefillOut"); k++ {
+			sc.Script = append(sc.Script, Move{K: "release", I: rapid.IntRange(0, 5).Draw(t, "which")})
+		}
+		var all []Move
+		for k := 0; k < sc.Par; k++ {
+			all = append(all, Move{K: "release", I: 0})
+		}
+		sc.Script = append(sc.Script, Move{K: "batch", Sub: all})
+		if rapid.Bool().Draw(t, "thenCancel") {
+			sc.Script = append(sc.Script, Move{K: "cancel"})
+		}
 	case "random":
 		sc.Script = genForkScript(t, np, true, 40)
 	case "no-cancel":
@@ -497,6 +518,9 @@ func genC09(t *rapid.T) *Scenario {
 		sc.Script = append(sc.Script, genForkScript(t, np, false, 6)...)
 	}
 	sc.NoFinish = rapid.IntRange(0, 4).Draw(t, "nofinish") == 0
+	if len(sc.Script) > 1 && sc.Script[0].K == "burst" && sc.Script[0].M == 16 && sc.Script[len(sc.Script)-1].K != "release" {
+		sc.NoFinish = sc.NoFinish || rapid.Bool().Draw(t, "nobodyReceives") // simultaneous-release class
+	}
 	return sc
 }
 
